@@ -103,6 +103,29 @@ class HistoryRunner:
         ds = self.ds
         kind = op["op"]
         b = op.get("b")
+        if kind == "fail":
+            # an operation the store must refuse; whatever it raises, it must not undo earlier acknowledged writes
+            what = op["what"]
+            try:
+                if what == "create_existing" and b in self.buckets():
+                    ds.create_bucket(b, type="t", client="c", hostname="h")
+                elif what == "delete_missing_bucket":
+                    ds.delete_bucket("no-such-bucket")
+                elif what == "update_missing_bucket":
+                    ds.update_bucket("no-such-bucket", name="x")
+                elif what == "upsert_unbindable" and b in self.buckets():
+                    e = mk_event(op["ev"])
+                    e.id = 2**63
+                    ds[b].insert([mk_event(op["ev2"]), e])
+                elif what == "insert_unserializable" and b in self.buckets():
+                    e = mk_event(op["ev"])
+                    e.data["bad"] = {1, 2}        # a set is not JSON
+                    ds[b].insert(e)
+                else:
+                    return None
+                return dict(kind=kind, raised=None, what=what)
+            except Exception as ex:  # noqa: BLE001
+                return dict(kind=kind, raised=type(ex).__name__, what=what)
         if kind == "create_bucket":
             if b in self.buckets():
                 return None
@@ -145,7 +168,7 @@ class HistoryRunner:
             if i is None:
                 return None
             bk.replace(i, mk_event(op["ev"]))
-            return dict(kind=kind)
+            return dict(kind=kind, targets=[u])
         if kind == "replace_last":
             if not self.live_uids(b):
                 return None
@@ -156,7 +179,7 @@ class HistoryRunner:
             if i is None:
                 return None
             bk.delete(i)
-            return dict(kind=kind)
+            return dict(kind=kind, targets=[u])
         if kind == "delete_missing":
             bk.delete(10**9 + op.get("n", 0))
             return dict(kind=kind)
